@@ -92,7 +92,7 @@ TInvoke ==
                missingSrc |-> missingSrc, editrun |-> E.editrun, intr |-> E.intr,
                started |-> <<>>, doneOK |-> {}, failed |-> {}, codes |-> {}, run |-> {}, nfail |-> 0,
                skipped |-> {}, ticks |-> {}, stStarted |-> {}, stFinished |-> {}, cnt |-> [tot |-> 0, st |-> 0, fin |-> 0],
-               interrupted |-> FALSE, killed |-> {}, partial |-> {}, startsAfterBudget |-> 0, loaded |-> NoLogs]
+               interrupted |-> FALSE, killed |-> {}, partial |-> {}, startsAfterBudget |-> 0, loaded |-> NoLogs, kfSeen |-> ""]
   /\ stats' = [stats EXCEPT !.invokes = @ + 1, !.cyclic = @ + (IF AcyclicN(g, E.tree, L, Needed(g, E.tree, L, ToS(E.targets))) THEN 0 ELSE 1),
                              !.failing = @ + (IF Len(E.fail) > 0 THEN 1 ELSE 0), !.dry = @ + (IF E.dry THEN 1 ELSE 0)]
   /\ UNCHANGED <<meta, g, L, F, FT, prev, relax, taint, afterCrash, tw, viol>> /\ Step
@@ -121,14 +121,15 @@ MayStart(i) ==
 SkipRec == {i \in iv.skipped : UsesDeps(St(g, i)) /\ L[i].rec # {}}
 THook ==
   /\ Is("H")
-  /\ iv' = IF iv.active /\ E.h = "DepsSkipped" /\ E.s # 0 THEN [iv EXCEPT !.skipped = @ \cup {E.s}] ELSE iv
-  /\ viol' = IF iv.active /\ E.h = "Wait" /\ ~taint /\ iv.acyc /\ ~iv.dry
-                /\ BudgetLeft /\ Cardinality(iv.run) < (IF iv.tok < 0 THEN iv.j ELSE 1 + iv.tok)
-                /\ \E i \in Ids(g) : MayStart(i)
-             THEN viol \cup {V("C06", "waits although a command is startable and a slot is free",
-                               IF {i \in Ids(g) : MayStart(i)} \subseteq iv.kfT THEN "KF-FAIL-TOUCHED"
-                               ELSE IF SkipRec # {} /\ {i \in Ids(g) : MayStart(i)} \subseteq (iv.exp \ iv.expS) THEN "KF-DEPS-SKIPPED" ELSE "")}
-             ELSE viol
+  /\ LET idle == iv.active /\ E.h = "Wait" /\ ~taint /\ iv.acyc /\ ~iv.dry
+                  /\ BudgetLeft /\ Cardinality(iv.run) < (IF iv.tok < 0 THEN iv.j ELSE 1 + iv.tok)
+                  /\ \E i \in Ids(g) : MayStart(i)
+         ms == {i \in Ids(g) : MayStart(i)}
+         kfw == IF ms \subseteq iv.kfT THEN "KF-FAIL-TOUCHED"
+                ELSE IF SkipRec # {} /\ ms \subseteq (iv.exp \ iv.expS) THEN "KF-DEPS-SKIPPED" ELSE ""
+     IN /\ viol' = IF idle THEN viol \cup {V("C06", "waits although a command is startable and a slot is free", kfw)} ELSE viol
+        /\ iv' = IF iv.active /\ E.h = "DepsSkipped" /\ E.s # 0 THEN [iv EXCEPT !.skipped = @ \cup {E.s}]
+                  ELSE IF idle /\ kfw # "" THEN [iv EXCEPT !.kfSeen = kfw] ELSE iv
   /\ UNCHANGED <<meta, g, L, F, FT, prev, relax, taint, afterCrash, tw, stats>> /\ Step
 
 TStatus ==
@@ -175,7 +176,8 @@ TStart ==
                      THEN {V("C06", "more commands running than jobserver tokens held", "")} ELSE {})
          v17 == IF ~iv.acyc /\ FALSE THEN {} ELSE {}
      IN /\ viol' = viol \cup v4 \cup v5 \cup v6 \cup v17
-        /\ iv' = [iv EXCEPT !.started = Append(@, i), !.run = runNow, !.ticks = @ \cup {<<i, E.t>>}]
+        /\ iv' = [iv EXCEPT !.started = Append(@, i), !.run = runNow, !.ticks = @ \cup {<<i, E.t>>},
+                             !.kfSeen = IF \E x \in v4 \cup v5 \cup v6 : x.kf # "" THEN (CHOOSE x \in v4 \cup v5 \cup v6 : x.kf # "").kf ELSE @]
         /\ L' = L
   /\ stats' = [stats EXCEPT !.starts = @ + 1]
   /\ UNCHANGED <<meta, g, F, FT, prev, relax, taint, afterCrash, tw>> /\ Step
@@ -242,27 +244,30 @@ TExit ==
          diffBySkip(A, B) == eskip # {} /\ ((A \ B) \cup (B \ A)) \subseteq downSkip
          dev03 == IF ok THEN startedSet # iv.exp ELSE ~(startedSet \subseteq iv.exp)
          \* attribution to the known finding KF-DEPS-SKIPPED (DESIGN.md Appendix A)
-         kfSkip == /\ iv.expS # iv.exp \/ iv.skipped \cap {i \in Ids(g) : L[i].rec # {}} # {}
-                   /\ IF ok THEN startedSet = iv.expS ELSE startedSet \subseteq iv.expS
-                   /\ \E i \in iv.skipped : UsesDeps(St(g, i))
+         \* the commands are exactly those predicted when recorded dependencies of already-dirty statements are ignored
+         kfSkipOf(A) == /\ iv.expS # iv.exp /\ skipStmts # {}
+                        /\ IF ok THEN A = iv.expS ELSE A \subseteq iv.expS
+         kfSkip == kfSkipOf(startedSet)
          exact == iv.acyc /\ ~relax /\ ~taint /\ ~iv.dry /\ ~iv.missingSrc /\ ~iv.interrupted
          kfTouch == /\ iv.kfT # {}
                     /\ IF ok THEN startedSet = iv.expNoF ELSE startedSet \subseteq iv.expNoF
-         kf == IF kfTouch THEN "KF-FAIL-TOUCHED" ELSE IF kfSkip THEN "KF-DEPS-SKIPPED" ELSE ""
+         \* a deviation carries a known finding's name if the invocation shows its signature: the started set is the one the
+         \* finding predicts, or an ordering / idle violation with its signature was already seen in this invocation
+         kf == IF kfTouch THEN "KF-FAIL-TOUCHED" ELSE IF kfSkip THEN "KF-DEPS-SKIPPED" ELSE iv.kfSeen
          v05f == IF exact /\ iv.kfT # {} /\ ~(iv.kfT \subseteq startedSet) /\ (ok \/ ~(startedSet \subseteq iv.exp) \/ kfTouch)
                  THEN {V("C05", "a command that failed is not retried by the next build", kf)} ELSE {}
          v03 == IF exact /\ dev03
                 THEN {V("C03", IF startedSet \subseteq iv.exp THEN "a command that had to run was not run"
                                ELSE "a command ran although nothing it depends on changed",
-                        IF kf # "" THEN kf ELSE IF diffBySkip(startedSet, iv.exp) THEN "KF-DEPS-SKIPPED" ELSE "")} ELSE {}
+                        kf)} ELSE {}
          \* stale files that lie downstream of a statement whose recorded dependencies were not consulted
          staleBySkip == skipStmts # {} /\ stale \subseteq UNION {Outs(St(g, i)) : i \in Downstream(g, iv.T0, L, skipStmts)}
-         kf01 == IF kf # "" THEN kf ELSE IF staleBySkip THEN "KF-DEPS-SKIPPED" ELSE ""
+         kf01 == IF kf # "" THEN kf ELSE IF (relax \/ afterCrash) /\ staleBySkip THEN "KF-DEPS-SKIPPED" ELSE ""
          v01 == IF iv.acyc /\ ok /\ ~iv.editrun /\ ~iv.dry /\ stale # {} /\ ~taint
                 THEN {V(IF afterCrash \/ relax THEN "C07" ELSE "C01", "stale output after a successful build", kf01),
                       V("C01", "stale output after a successful build", kf01)} ELSE {}
          v02 == IF prev.ok /\ prev.targets = iv.targets /\ ~iv.dry /\ ~taint /\ (startedSet # {} \/ E.mc # "nowork")
-                THEN {V("C02", "second build of the same targets was not a no-op", IF kf # "" THEN kf ELSE IF diffBySkip(startedSet, {}) THEN "KF-DEPS-SKIPPED" ELSE "")} ELSE {}
+                THEN {V("C02", "second build of the same targets was not a no-op", kf)} ELSE {}
          \* C05: exit status and what is started/finished under -k
          anyFail == iv.failed # {}
          v05a == IF anyFail /\ (ok \/ E.code \notin iv.codes) /\ ~iv.interrupted
@@ -305,7 +310,7 @@ TExit ==
                 THEN {V(twp, IF ref.started # sum.started THEN "different commands run than with the discovered information written into the manifest"
                              ELSE IF ref.ok # sum.ok THEN "different build result than with the discovered information written into the manifest"
                              ELSE "different final contents than with the discovered information written into the manifest",
-                        IF skipStmts # {} \/ diffBySkip(ref.started, sum.started) THEN "KF-DEPS-SKIPPED" ELSE "")} ELSE {}
+                        kf)} ELSE {}
          \* C17: a cycle in the needed part of the graph is diagnosed, spelled out, and none of its commands run
          hops == IF "cyc" \in DOMAIN E THEN E.cyc ELSE <<>>
          hopOK(k) == LET p == Prod(g, hops[k]) IN p # 0 /\ hops[k + 1] \in All(g, iv.T0, L, p) \cup (IF St(g, p).dd # "" THEN {St(g, p).dd} ELSE {})
@@ -327,9 +332,9 @@ TExit ==
                 \cup (IF E.logs.blog # iv.loaded.blog \/ E.logs.dlog # iv.loaded.dlog THEN {V("C19", "a dry run changed the meaning of a log", "")} ELSE {})
                 \cup (IF iv.acyc /\ ~relax /\ ~taint /\ ~iv.missingSrc /\ ok /\ (~(iv.exp \subseteq iv.stStarted) \/ (~restatInNeed /\ iv.stStarted # iv.exp))
                       THEN {V("C19", "the commands listed by the dry run are not those a real build runs",
-                               IF iv.kfT # {} /\ iv.stStarted = iv.expNoF THEN "KF-FAIL-TOUCHED" ELSE IF skipStmts # {} \/ diffBySkip(iv.stStarted, iv.exp) THEN "KF-DEPS-SKIPPED" ELSE "")} ELSE {})
+                               IF iv.kfT # {} /\ iv.stStarted = iv.expNoF THEN "KF-FAIL-TOUCHED" ELSE IF kfSkipOf(iv.stStarted) THEN "KF-DEPS-SKIPPED" ELSE "")} ELSE {})
          newv == v19 \cup v17 \cup vtw \cup v03 \cup v01 \cup v02 \cup v05f \cup v05a \cup v05b \cup v05c \cup v05d \cup v05e \cup v06 \cup v16 \cup v20 \cup v07
-         kfHit == \E x \in newv : x.kf # ""
+         kfHit == iv.kfSeen # "" \/ \E x \in newv : x.kf # ""
      IN /\ viol' = viol \cup newv
         /\ relax' = (relax \/ iv.interrupted)
         /\ taint' = (taint \/ kfHit)
